@@ -58,9 +58,13 @@ def attempts(rng, mirror: E.Mirror, world: E.World):
                 continue
             if E.tid(off) == E.tid(tgt):
                 continue
-            c = {"why": "attached", "op": k, "target": E.tid(tgt), "offered": E.tid(off)}
+            c = {"why": "attached", "op": k, "target": E.tid(tgt), "offered": E.tid(off),
+                 "ambient": rng.choice(["none", "default"])}
             if k == "insert":
                 c["index"] = rng.randint(0, len(tgt[5]))
+            if c["ambient"] == "default" and k != "append":
+                # under default filters index/sibling arguments address visible nodes only; keep to append
+                c["ambient"] = "none"
             out.append(c)
     out.append({"why": "detach-doc-root", "op": "detach", "target": E.tid(mirror.groups[0]), "retain": False})
     for g, n in roots:
@@ -91,7 +95,12 @@ def attempts(rng, mirror: E.Mirror, world: E.World):
 
 
 def call(world: E.World, a):
+    import contextlib
+
     from delb import altered_default_filters, new_comment_node, new_processing_instruction_node, tag
+
+    # the calls are made without ambient filters or under the library's default ones
+    ambient = contextlib.nullcontext if a.get("ambient") == "default" else altered_default_filters
 
     def offered():
         o = a.get("offered")
@@ -102,7 +111,7 @@ def call(world: E.World, a):
         return world.objs[o]
 
     try:
-        with altered_default_filters():
+        with ambient():
             op = a["op"]
             if op == "new_comment":
                 new_comment_node(a["s"])
@@ -136,6 +145,58 @@ def call(world: E.World, a):
         return None
     except Exception as e:  # noqa: BLE001
         return type(e).__name__
+
+
+def sibling_attached_attempts(run: Run, stream):
+    """nodes without a parent that still have siblings: the root of a document with prologue/epilogue, the
+    members of a parentless comment/PI chain - offered under no and under default ambient filters"""
+    import contextlib
+
+    from delb import Document, altered_default_filters, new_comment_node, new_processing_instruction_node, new_tag_node
+    from _delb.exceptions import InvalidOperation
+    import trees
+
+    rng = run.rng
+    for _ in range(6):
+        pro = rng.choice(["<!--p-->", "<?pi p?>", "<!--a--><!--b-->", ""])
+        epi = rng.choice(["<!--e-->", "<?pi e?>", ""])
+        if not pro and not epi:
+            pro = "<!--p-->"
+        src = Document(pro + "<root><a/>t</root>" + epi)
+        tgt = Document("<target><x/></target>")
+        which = rng.choice(["doc-root", "chain-last", "chain-first"])
+        if which == "doc-root":
+            offered = src.root
+        else:
+            c1, c2 = new_comment_node("one"), new_processing_instruction_node("two", "d")
+            with altered_default_filters():
+                c1.add_following_siblings(c2)
+            offered = c2 if which == "chain-last" else c1
+        amb = rng.choice(["none", "default"])
+        how = rng.choice(["append", "add_following", "insert"])
+        case = {"attempt": {"why": "attached", "op": how, "offered": which, "ambient": amb, "prologue": pro, "epilogue": epi}}
+        before = (str(src), trees.extract(tgt.root))
+        raised = None
+        try:
+            with (contextlib.nullcontext() if amb == "default" else altered_default_filters()):
+                if how == "append":
+                    tgt.root.append_children(offered)
+                elif how == "insert":
+                    tgt.root.insert_children(0, offered)
+                else:
+                    tgt.root[0].add_following_siblings(offered)
+        except Exception as e:  # noqa: BLE001
+            raised = type(e).__name__
+        try:
+            after = (str(src), trees.extract(tgt.root))
+        except Exception as e:  # noqa: BLE001  the document is no longer in a consistent state
+            after = ("serializing raised " + type(e).__name__, None)
+        run.case(stream, case, True)
+        run.count("attempt", "attached-by-siblings:" + which + ":" + amb)
+        if raised != "InvalidOperation":
+            run.violation(stream, case, {"why": f"a node with siblings was offered: expected InvalidOperation, got {raised}"})
+        if before != after:
+            run.violation(stream, case, {"why": "rejected call changed a tree", "before": before, "after": after})
 
 
 def guard_request(mirror: E.Mirror, a):
@@ -228,6 +289,8 @@ def check(run: Run, lean: dict) -> int:
         run_one(run, "corpus", xml, ops, 0, rows)
     for _ in range(n):
         run_one(run, "generated", run.rng.choice(E.DOCS), None, run.rng.randint(0, 10), rows)
+    for _ in range(max(4, n // 10)):
+        sibling_attached_attempts(run, "siblings")
     if ok and rows:
         for (case, req, raised, known), m in zip(rows, run_driver([r[1] for r in rows])):
             if "driver_error" in m:
@@ -248,6 +311,7 @@ def search(run: Run):
             return [probe.violations[0]]
     for _ in range(1500):
         run_one(probe, "search", probe.rng.choice(E.DOCS), None, probe.rng.randint(0, 12), [])
+        sibling_attached_attempts(probe, "search")
         if probe.violations:
             return [probe.violations[0]]
     return None
